@@ -1024,6 +1024,38 @@ theorem segs_diag (old : List α) (x : α) (d : Nat) :
     exact ih (k + 1) (by omega)
 
 
+theorem snake_diag_self (old : List α) (d : Nat) :
+    ∀ (k : Nat) (tr : Trace), k + d = old.length →
+      followSnake old old k k tr = (old.length, old.length, (diag k d).reverse ++ tr) := by
+  induction d with
+  | zero =>
+    intro k tr hk
+    have : k = old.length := by omega
+    subst this
+    rw [followSnake]
+    simp [diag]
+  | succ d ih =>
+    intro k tr hk
+    have hlt : k < old.length := by omega
+    rw [followSnake]
+    simp only [hlt, ↓reduceDIte, List.getElem?_eq_getElem hlt, ↓reduceIte]
+    rw [ih (k + 1) ((k, k) :: tr) (by omega), diag_succ]
+    simp
+
+theorem segs_diag_self (old : List α) (d : Nat) :
+    ∀ (k : Nat) (px : Int), k + d = old.length → segs old old px k k (diag k d) = [] := by
+  induction d with
+  | zero =>
+    intro k px hk
+    have : k = old.length := by omega
+    subst this
+    simp [diag, segs, slice_self, insOpt, delRun]
+  | succ d ih =>
+    intro k px hk
+    rw [diag_succ]
+    simp only [segs, slice_self, insOpt, ↓reduceIte, Nat.sub_self, delRun, List.nil_append]
+    exact ih (k + 1) _ (by omega)
+
 /-! ## Part G: the breadth-first search terminates (completeness) -/
 
 theorem followSnake_pos_indep (old new : List α) (x y : Nat) (tr : Trace) :
